@@ -281,7 +281,7 @@ Proof.
     inversion H; subst. exfalso. unfold enter_close in C'. rewrite C in C'. cbn in C'. discriminate.
   - (* PC1 (the flag is set: not on an open session; stated anyway, the notification is a no-op when it is clear) *)
     cbv zeta in H. rewrite (wake_id s C) in H. inversion H; subst. apply V_same; [reflexivity | |].
-    + unfold own. rewrite sub_set_pc. cbn [tasks set_table set_tasks]. rewrite sub_drain. unfold pcof. cbn. rewrite upd_same, Epc. reflexivity.
+    + unfold own. rewrite sub_set_pc. cbn [tasks set_table set_tasks set_rtable drain_state]. rewrite sub_drain. unfold pcof. cbn. rewrite upd_same, Epc. reflexivity.
     + eapply kw_of_pcu. eapply quiet_pcu; [|apply pcu_set_pc].
       unfold quiet. split; [reflexivity | split; [reflexivity|]]. intros t'. unfold pcof. cbn. apply drain_pc.
   - (* PC2 *)
@@ -296,7 +296,11 @@ Proof.
   - discriminate.
   - (* PO0 *)
     inversion H; subst. apply V_same; [reflexivity | |].
-    + apply (own_of s _ t (PO1 (next_sid s))); [apply pcof_set_task_same | rewrite sub_set_task_self; reflexivity | unfold pcof; rewrite Epc; reflexivity].
+    + apply (own_of s _ t (PO0b (next_sid s))); [apply pcof_set_task_same | rewrite sub_set_task_self; reflexivity | unfold pcof; rewrite Epc; reflexivity].
+    + eapply kw_of_pcu. eapply quiet_pcu; [|apply pcu_set_task]. unfold quiet. split; [reflexivity | split; [reflexivity | intros ?; reflexivity]].
+  - (* PO0b *)
+    inversion H; subst. apply V_same; [reflexivity | |].
+    + apply (own_of s _ t (PO1 sid)); [apply pcof_set_task_same | rewrite sub_set_task_self; reflexivity | unfold pcof; rewrite Epc; reflexivity].
     + eapply kw_of_pcu. eapply quiet_pcu; [|apply pcu_set_task]. unfold quiet. split; [reflexivity | split; [reflexivity | intros ?; reflexivity]].
   - (* PO1: the SYN is submitted *)
     inversion H; subst. apply (V_sub s t _ (syn_frame sid)); [reflexivity | | unfold pcof; rewrite Epc; reflexivity | | | eapply kw_of_pcu; apply pcu_set_task].
@@ -335,15 +339,16 @@ Proof.
     + rewrite prog_set_pc. unfold release. rewrite prog_release_ws. reflexivity.
     + rewrite prog_finish_w. unfold release. rewrite prog_release_ws. reflexivity.
   - left. inversion H; subst. apply prog_enter_close.
-  - left. cbv zeta in H. inversion H; subst. rewrite prog_set_pc. cbn [tasks set_table set_tasks]. rewrite prog_drain. apply prog_wake.
+  - left. cbv zeta in H. inversion H; subst. rewrite prog_set_pc. cbn [tasks set_table set_tasks set_rtable drain_state]. rewrite prog_drain. apply prog_wake.
   - left. destruct (wr s); inversion H; subst; [rewrite prog_set_pc; reflexivity | apply (prog_finish_close (set_shut s))].
   - discriminate.
+  - left. inversion H; subst. cbn. rewrite upd_same. reflexivity.
   - left. inversion H; subst. cbn. rewrite upd_same. reflexivity.
   - left. inversion H; subst. cbn. rewrite upd_same. reflexivity.
   - discriminate.
 Qed.
 
-Definition is_po (p : pc) : bool := match p with PO0 | PO1 _ => true | _ => false end.
+Definition is_po (p : pc) : bool := match p with PO0 | PO0b _ | PO1 _ => true | _ => false end.
 
 Lemma step_self_po s t s' :
   step s t = Some s' -> is_po (pcof s' t) = true ->
@@ -374,6 +379,7 @@ Proof.
   - exfalso. destruct (wr s); inversion H; subst; [unfold pcof in P; cbn in P; rewrite upd_same in P; discriminate|].
     rewrite pcof_finish_close_same in P. discriminate.
   - discriminate.
+  - left. unfold pcof. rewrite Epc. reflexivity.
   - left. unfold pcof. rewrite Epc. reflexivity.
   - left. unfold pcof. rewrite Epc. reflexivity.
   - discriminate.
@@ -417,6 +423,7 @@ Proof.
   - exfalso. destruct (wr s); inversion H; subst; [unfold pcof in P; cbn in P; rewrite upd_same in P; discriminate|].
     rewrite pcof_finish_close_same in P. discriminate.
   - discriminate.
+  - exfalso. inversion H; subst. rewrite pcof_set_task_same in P. discriminate.
   - exfalso. inversion H; subst. rewrite pcof_set_task_same in P. discriminate.
   - exfalso. inversion H; subst. rewrite pcof_set_task_same in P. discriminate.
   - discriminate.
@@ -619,7 +626,7 @@ End Pump.
 Definition open_ok (s : state) (u : tid) : Prop :=
   forall sid, t_sid (tasks s u) = Some sid ->
     match pcof s u with
-    | PO1 x => x = sid
+    | PO0b x | PO1 x => x = sid
     | PW0 WkOpen f | PW1 WkOpen f | PW2 WkOpen f | PW2wait WkOpen f | PW3 WkOpen f => f = syn_frame sid
     | _ => In (u, syn_frame sid) (lin s)
     end.
@@ -650,7 +657,7 @@ Proof.
     assert (forall X r, (forall sid, t_sid (tasks X t) = Some sid -> t_sid (tasks s t) = Some sid) ->
                         s' = finish X t r -> forall sid, t_sid (tasks s' t) = Some sid ->
                         match pcof s' t with
-                        | PO1 x0 => x0 = sid
+                        | PO0b x0 | PO1 x0 => x0 = sid
                         | PW0 WkOpen f | PW1 WkOpen f | PW2 WkOpen f | PW2wait WkOpen f | PW3 WkOpen f => f = syn_frame sid
                         | _ => In (t, syn_frame sid) (lin s')
                         end) as FIN.
@@ -742,9 +749,13 @@ Proof.
       destruct (ks_finish_close (set_shut s) t a k t) as [[A|A] _]; [|congruence].
       rewrite A in E. destruct (data_finish_close (set_shut s) t a k) as (_ & _ & L & _). rewrite L. exact (O sid E).
   - discriminate.
-  - (* PO0: the id is allocated *)
-    inversion H; subst. intros sid E. cbn in E. rewrite upd_same in E. cbn in E. inversion E; subst.
-    rewrite pcof_set_task_same. reflexivity.
+  - (* PO0: the id is allocated; between the two inserts the task holds the new id, the old one (whose SYN is logged)
+       is forgotten *)
+    inversion H; subst. intros sid E. rewrite pcof_set_task_same. cbn [t_pc with_pc].
+    cbn in E. rewrite upd_same in E. cbn in E. inversion E; subst. reflexivity.
+  - (* PO0b: second insert *)
+    inversion H; subst. intros sid' E. assert (t_sid (tasks s t) = Some sid') as E0 by (cbn in E; rewrite upd_same in E; exact E).
+    specialize (O sid' E0). subst sid. rewrite pcof_set_task_same. reflexivity.
   - (* PO1: the SYN is submitted *)
     inversion H; subst. intros sid' E. assert (t_sid (tasks s t) = Some sid') as E0 by (cbn in E; rewrite upd_same in E; exact E).
     specialize (O sid' E0). subst sid. rewrite pcof_set_task_same. reflexivity.
@@ -760,7 +771,7 @@ Proof.
   { destruct (step_keeps s t s' u H (fun X => False_ind _ (Hne X))) as [[A|A] _]; [rewrite A in E; exact E | congruence]. }
   specialize (O sid E0).
   destruct (step_others s t s' HI H u Hne) as [[A|[(k & f & A & B)|(a & k & A & B & _)]]|[(_ & A & [B|B])|(A & [B|[f B]])]].
-  - rewrite A. destruct (pcof s u) as [ | k f| k f| k f| k f| k f| | | | | | | | ]; try destruct k; try exact O; apply (in_lin_grows s _ _ G); exact O.
+  - rewrite A. destruct (pcof s u) as [ | k f| k f| k f| k f| k f| | | | | | | | | ]; try destruct k; try exact O; apply (in_lin_grows s _ _ G); exact O.
   - rewrite A in O. rewrite B. destruct k; try exact O; apply (in_lin_grows s _ _ G); exact O.
   - rewrite A in O. rewrite B. apply (in_lin_grows s _ _ G); exact O.
   - rewrite A in O. rewrite B. apply (in_lin_grows s _ _ G); exact O.
